@@ -832,4 +832,113 @@ theorem floatCmpBV_eq_spec {w : Nat} (hw : 0 < w)
   · have h4 : ¬ (floatKey a).toInt ≤ (floatKey b).toInt := by omega
     rw [Int.compare_eq_gt.mpr h]; simp [h4]
 
+
+/-! ### contract instance, partition -/
+
+/-- a sorter meeting the contract exists (core merge sort): the contract is satisfiable -/
+def mergeSorter : PartialSorter := fun c _ xs => xs.mergeSort (fun a b => c a b != .gt)
+
+theorem mergeSorter_contract : SortContract mergeSorter := by
+  have hp : ∀ {β : Type} (c : β → β → Ordering) (xs : List β), TotalPreCmp c →
+      (xs.mergeSort (fun a b => c a b != .gt)).Pairwise (fun a b => c a b ≠ .gt) := by
+    intro β c xs hc
+    have := List.pairwise_mergeSort (le := fun a b => c a b != .gt)
+      (by intro a b d h1 h2; simp at h1 h2 ⊢; exact hc.trans a b d h1 h2)
+      (by intro a b; rw [hc.swap a b]; cases c a b <;> simp [Ordering.swap]) xs
+    exact this.imp (by intro a b h; simpa using h)
+  refine ⟨?_, ?_, ?_⟩
+  · intro β c k xs _ _; exact List.mergeSort_perm xs _
+  · intro β c k xs hc _
+    exact (hp c xs hc).sublist (List.take_sublist k _)
+  · intro β c k xs hc _ a ha b hb
+    have := hp c xs hc
+    rw [← List.take_append_drop k (xs.mergeSort _), List.pairwise_append] at this
+    exact this.2.2 a ha b hb
+
+/-! ### partition -/
+
+theorem lexCmp_ne_eq {ι : Type} (cs : List (ι → ι → Ordering)) (i j : ι) :
+    (lexCmp cs i j != .eq) = cs.any (fun c => c i j != .eq) := by
+  induction cs with
+  | nil => rfl
+  | cons c cs ih =>
+    simp only [lexCmp, List.any_cons]
+    cases hc : c i j <;> simp [ih, lt_bne_eq, gt_bne_eq]
+
+theorem foldl_bounds (cs : List (Nat → Nat → Ordering)) (g : Nat → Bool) (r : List Nat) :
+    cs.foldl (fun acc c => List.zipWith (· || ·) acc (r.map (fun i => c i (i + 1) != .eq))) (r.map g)
+      = r.map (fun i => g i || cs.any (fun c => c i (i + 1) != .eq)) := by
+  induction cs generalizing g with
+  | nil => simp
+  | cons c cs ih =>
+    simp only [List.foldl_cons, List.any_cons]
+    have : List.zipWith (· || ·) (r.map g) (r.map (fun i => c i (i + 1) != .eq))
+        = r.map (fun i => g i || (c i (i + 1) != .eq)) := by
+      rw [List.zipWith_map_left, List.zipWith_map_right]
+      induction r with
+      | nil => rfl
+      | cons x xs _ => simp
+    rw [this, ih]
+    apply List.map_congr_left
+    intro i _; simp [Bool.or_assoc]
+
+/-- boundary mask of `partition` = mask of the tuple comparator -/
+theorem partitionBounds_eq (cs : List (Nat → Nat → Ordering)) (hcs : cs ≠ []) (len : Nat) :
+    partitionBounds cs len = boundarySpec (lexCmp cs) len := by
+  cases cs with
+  | nil => exact absurd rfl hcs
+  | cons c cs =>
+    unfold partitionBounds findBoundaries boundarySpec
+    simp only []
+    rw [foldl_bounds cs (fun i => c i (i + 1) != .eq) (List.range (len - 1))]
+    apply List.map_congr_left
+    intro i _
+    rw [lexCmp_ne_eq]; simp
+
+theorem rangesLoop_spec (bs : List Bool) : ∀ (p start : Nat) (out : List (Nat × Nat)),
+    ∃ body cur, rangesLoop (setIndicesFrom p bs) start out = (cur, out ++ body) ∧
+      rangesSpecGo bs start p = body ++ [(cur, p + bs.length + 1)] := by
+  induction bs with
+  | nil => intro p start out; exact ⟨[], start, by simp [setIndicesFrom, rangesLoop], by simp [rangesSpecGo]⟩
+  | cons b bs ih =>
+    intro p start out
+    cases b with
+    | true =>
+      obtain ⟨body, cur, h1, h2⟩ := ih (p + 1) (p + 1) (out ++ [(start, p + 1)])
+      refine ⟨(start, p + 1) :: body, cur, ?_, ?_⟩
+      · simp only [setIndicesFrom, rangesLoop]; rw [h1]; simp
+      · simp only [rangesSpecGo, h2, List.length_cons]; simp; omega
+    | false =>
+      obtain ⟨body, cur, h1, h2⟩ := ih (p + 1) start out
+      refine ⟨body, cur, ?_, ?_⟩
+      · simp only [setIndicesFrom]; exact h1
+      · simp only [rangesSpecGo, h2, List.length_cons]; simp; omega
+
+theorem rangesLoop_cur_le (bs : List Bool) : ∀ (p start : Nat) (out : List (Nat × Nat)),
+    start ≤ p → (rangesLoop (setIndicesFrom p bs) start out).1 ≤ p + bs.length := by
+  induction bs with
+  | nil => intro p start out h; simpa [setIndicesFrom, rangesLoop] using h
+  | cons b bs ih =>
+    intro p start out h
+    cases b with
+    | true =>
+      simp only [setIndicesFrom, rangesLoop, List.length_cons]
+      have := ih (p + 1) (p + 1) (out ++ [(start, p + 1)]) (Nat.le_refl _); omega
+    | false =>
+      simp only [setIndicesFrom, List.length_cons]
+      have := ih (p + 1) start out (by omega); omega
+
+theorem partitionRanges_eq (bounds : List Bool) (len : Nat) :
+    partitionRanges bounds len = rangesSpec bounds len := by
+  unfold partitionRanges rangesSpec
+  split
+  · rfl
+  · obtain ⟨body, cur, h1, h2⟩ := rangesLoop_spec bounds 0 0 []
+    have hle := rangesLoop_cur_le bounds 0 0 [] (Nat.le_refl _)
+    unfold setIndices
+    rw [h1] at hle
+    simp only [h1, h2]
+    have : (cur != bounds.length + 1) = true := by simp at hle ⊢; omega
+    simp [this]
+
 end ArrowModel.C10
